@@ -125,6 +125,13 @@ def gen_seq(rng, sid):
         w = rng.choice([2, 3, 4])
         hdr = [rng.choice(["k", "v", "id", "b", "a", "zz"]) for _ in range(w)]
         files.append((fname, [hdr] + [[f"n{i}", str(i * 3), "y"][:w] for i in range(1, rng.choice([2, 4, 7, 9]))]))
+    if rng.random() < 0.35:
+        # two different files that share a base name, in two directories (two drops of one feed): each is its own file
+        w = rng.choice([2, 3, 4])
+        hdr = [rng.choice(["k", "v", "id", "b", "a", "zz"]) for _ in range(w)]
+        files.append(("s1/e.csv", [["id", "a", "b"]] + [[f"r{i}", str(i), "x"] for i in range(1, rng.choice([2, 3, 5]))]))
+        files.append(("s2/e.csv", [hdr] + [[f"n{i}", str(i * 3), "y"][:w] for i in range(1, rng.choice([4, 7, 9]))]))
+        n += 2
     seq = []
     for k in range(n):
         fname, rows = rng.choice(files)
